@@ -314,7 +314,7 @@ PROPS['C19'] = dict(
     technique='Verus contracts on the real text of GLWEDecompress::decompress_glwe, vec_znx_fill_uniform_ref, znx_fill_uniform_ref and Source::next_u64n (the stream is an uninterpreted function of (seed, word index)); Kani bounded contract check of the same decompression with the stream abstracted to a symbolic tape',
     level_text='Unbounded (every ring degree, rank, limb count, radix 1..=63): after decompression column 0 is the stored body (limbs beyond the stored size zero), and coefficient k of limb j of mask column i is the balanced digit of word ((i-1)*size + j)*N + k of the stream seeded by the stored seed -- columns 1..rank, limb-major, in order on ONE stream, exactly one word per coefficient (the rejection loop of next_u64n never iterates for a power-of-two bound); nothing else is written. Bounded (Kani, N = 2, (rank, size) in {(2,2), (3,1)}): the same order statement by executing the real code on a symbolic tape.',
     level_note='That the ENCRYPTION side (glwe_encrypt_sk_internal) fills its mask columns in the same order from the same stream is read off the source (a `(1..cols)` loop of vec_znx_fill_uniform on source_xa), not proved; body equality needs the DFT and is undecided; GGLWE/GGSW/key decompression (loops over this routine) and serialisation after compression are not covered.',
-    units=[V('core_glwe_encrypt_api'), V('core_matrix', lemmas=['lemma_same_layout']), V('sampling'), V('core_encrypt'), V('ser_gglwe_compressed'), V('core_secret_tensor', lemmas=['lemma_slot_injective', 'lemma_slot_range', 'c19_tensor_prepare_slot', 'c19_tensor_prepare_ranges', 'c19_tensor_prepare_inner_range']),
+    units=[V('core_lwe_decompress'), V('core_glwe_encrypt_api'), V('core_matrix', lemmas=['lemma_same_layout']), V('sampling'), V('core_encrypt'), V('ser_gglwe_compressed'), V('core_secret_tensor', lemmas=['lemma_slot_injective', 'lemma_slot_range', 'c19_tensor_prepare_slot', 'c19_tensor_prepare_ranges', 'c19_tensor_prepare_inner_range']),
            K('poulpy-cpu-ref', 'verif_kani', ['c19_glwe_decompress_mask_order__n2_rank2_size2', 'c19_glwe_decompress_mask_order__n2_rank3_size1'], cls='bounded', timeout=1500,
              bound='N=2, (rank, size) in {(2,2), (3,1)}', functions=['GLWEDecompress::decompress_glwe', 'vec_znx_fill_uniform_ref', 'VecZnx::fill_uniform'])],
     trusted_base=VERUS_TRUST + [FMT_STUB, 'Source reduced to (seed, words drawn); next_u64 returns draw(seed, pos) and advances by one (ChaCha8 itself uninterpreted)', 'I-GLWE / I-NEWTYPE preludes; SetLWEInfos::set_base2k changes only the radix (restated)'],
